@@ -321,7 +321,9 @@ def run(prog, rep):
                           'is left behind, so unmerge is not the inverse of merge')
     dn = [c for c in ast.walk(um) if isinstance(c, ast.Call) and call_name(c) == 'delete_node']
     rep.instance('R6', f'unmerge: deletes {norm(dn[0]._parent._parent.iter) if dn and isinstance(dn[0]._parent._parent, ast.For) else "?"}')
-    if not dn or not isinstance(dn[0]._parent._parent, ast.For) or ast.unparse(dn[0]._parent._parent.iter) != 'delete_nodes':
+    del_lists = {c.func.value.id for c in ast.walk(ul) if isinstance(c, ast.Call) and call_name(c) == 'append' and isinstance(c.func.value, ast.Name)}
+    if not dn or not isinstance(dn[0]._parent._parent, ast.For) or ast.unparse(dn[0]._parent._parent.iter) not in del_lists or \
+            not (dn[0].keywords and ast.unparse(dn[0].keywords[0].value) == ast.unparse(dn[0]._parent._parent.target)):
         rep.violation('R6', loc(mod, um), 'Neo4jCBMGraph.unmerge_adm', 'deletion loop', 'the collected nodes must be deleted')
     rbid = [c for c in ast.walk(um) if isinstance(c, ast.Call) and call_name(c) == 'remove_by_id']
     rep.instance('R6', f'unmerge: {norm(rbid[0]) if rbid else "?"}')
@@ -357,7 +359,7 @@ def run(prog, rep):
                               f'"no delegations" (None, empty text), the node still looks delegated to merge - merging the same or another model '
                               f'that delegates on this node then fails with "delegations from both CBM and ADM", i.e. unmerge is not the inverse of merge')
     # guard: only nodes to which the model contributed are touched
-    ing = [n for n in ast.walk(um) if isinstance(n, ast.If) and ast.unparse(n.test) == f'{gid} in si.adm_graph_ids']
+    ing = [n for n in ast.walk(um) if isinstance(n, ast.If) and any(ctext(cj) in [f'{gid} in {i}' for i in ids_txt] for cj in conjuncts(canon(n.test)))]
     if not ing:
         rep.violation('R6', loc(mod, um), 'Neo4jCBMGraph.unmerge_adm', 'membership guard', 'only nodes the model contributed to may be changed')
 
